@@ -94,7 +94,7 @@ pub fn profile(name: &str) -> Profile {
         "c01" | "c02" | "c10" => {}
         "c03" => {
             p.mixed = [20, 25, 10, 14, 2, 6, 10, 10, 5, 4, 1, 1, 0, 2];
-            p.max_conts = 1;
+            p.max_conts = 2;
         }
         "c04" => {
             //          Ld LdD LdF DrG GIn DrO  St  Sw Cas Rcu Snd Rcv StS Ver
@@ -112,8 +112,9 @@ pub fn profile(name: &str) -> Profile {
             p.none_p = 3;
         }
         "c06" => {
-            p.writer = [1, 2, 1, 1, 0, 8, 6, 8, 8, 50, 0, 0, 0, 0];
-            p.mixed = [6, 6, 3, 6, 1, 8, 5, 6, 6, 40, 0, 0, 0, 1];
+            p.writer = [1, 2, 1, 1, 0, 8, 6, 8, 8, 50, 0, 0, 8, 0];
+            p.mixed = [6, 6, 3, 6, 1, 8, 5, 6, 6, 40, 0, 0, 6, 1];
+            p.cas_pool = true;
             p.roles = [2, 5, 3];
             p.max_conts = 2;
         }
@@ -600,6 +601,8 @@ impl<V: Val, S: StratExt<V>> Worker<V, S> {
         let form = self.rng.below(8);
         let inv;
         let cur_addr: u64;
+        // identity of the value the caller's live handle denotes (None for a bare address)
+        let cur_id: Option<u64>;
         let prev: Guard<V, S>;
         if let (Some(gi), true) = (gi, form < 4) {
             // current from a guard loaded from this container
@@ -607,6 +610,7 @@ impl<V: Val, S: StratExt<V>> Worker<V, S> {
                 0 if S::HAS_GUARD_FORMS => {
                     let (_, h) = self.guards.swap_remove(gi);
                     cur_addr = h.g().addr() as u64;
+                    cur_id = Some(h.id);
                     let g = release(h);
                     inv = self.begin_write(c, Kind::Cas, new_id, cur_addr);
                     prev = self.call(false, || S::cas_guard_owned(&self.conts[c], g, new));
@@ -614,12 +618,14 @@ impl<V: Val, S: StratExt<V>> Worker<V, S> {
                 1 if S::HAS_GUARD_FORMS => {
                     let h = &self.guards[gi].1;
                     cur_addr = h.g().addr() as u64;
+                    cur_id = Some(h.id);
                     inv = self.begin_write(c, Kind::Cas, new_id, cur_addr);
                     prev = self.call(false, || S::cas_guard_ref(&self.conts[c], h.g(), new));
                 }
                 2 => {
                     let h = &self.guards[gi].1;
                     cur_addr = h.g().addr() as u64;
+                    cur_id = Some(h.id);
                     let raw = V::as_ptr(h.g()) as *const V::Base;
                     inv = self.begin_write(c, Kind::Cas, new_id, cur_addr);
                     prev = self.call(false, || self.conts[c].compare_and_swap(raw, new));
@@ -627,6 +633,7 @@ impl<V: Val, S: StratExt<V>> Worker<V, S> {
                 _ => {
                     let h = &self.guards[gi].1;
                     cur_addr = h.g().addr() as u64;
+                    cur_id = Some(h.id);
                     inv = self.begin_write(c, Kind::Cas, new_id, cur_addr);
                     prev = self.call(false, || self.conts[c].compare_and_swap(&**h.g(), new));
                 }
@@ -634,6 +641,7 @@ impl<V: Val, S: StratExt<V>> Worker<V, S> {
         } else if !self.owned.is_empty() && form < 6 {
             let o = self.rng.below(self.owned.len() as u64) as usize;
             cur_addr = self.owned[o].v.addr() as u64;
+            cur_id = Some(self.owned[o].id);
             if form == 4 {
                 let raw = V::as_ptr(&self.owned[o].v);
                 inv = self.begin_write(c, Kind::Cas, new_id, cur_addr);
@@ -647,6 +655,7 @@ impl<V: Val, S: StratExt<V>> Worker<V, S> {
             // A raw address seen earlier (may be stale, freed or reused): only compared.
             let a = *self.rng.pick(&self.seen_addrs);
             cur_addr = a;
+            cur_id = None;
             let raw = a as usize as *const V::Base;
             inv = self.begin_write(c, Kind::Cas, new_id, cur_addr);
             prev = self.call(false, || self.conts[c].compare_and_swap(raw, new));
@@ -655,6 +664,7 @@ impl<V: Val, S: StratExt<V>> Worker<V, S> {
             let g0 = self.call(true, || self.conts[c].load());
             let h0 = hold(g0);
             cur_addr = h0.g().addr() as u64;
+            cur_id = Some(h0.id);
             sched::step(hs::OP_GAP);
             inv = self.begin_write(c, Kind::Cas, new_id, cur_addr);
             prev = self.call(false, || self.conts[c].compare_and_swap(&**h0.g(), new));
@@ -664,6 +674,20 @@ impl<V: Val, S: StratExt<V>> Worker<V, S> {
         self.pending.borrow_mut().take();
         let ret_id = prev.vid();
         let ret_addr = prev.addr() as u64;
+        if let Some(cid) = cur_id {
+            // The caller's handle keeps its value alive for the whole call, so a result at the same
+            // address is that very value (whatever the form `current` was passed in).
+            if ret_addr == cur_addr && cur_addr != 0 && ret_id != cid {
+                report(
+                    "C05",
+                    "cas-succeeded-against-another-value",
+                    format!(
+                        "compare_and_swap(current = live handle on value {:x} at {:#x}) returned value {:x} at the same address: it succeeded against a different value that took over the address (form #{})",
+                        cid, cur_addr, ret_id, form
+                    ),
+                );
+            }
+        }
         self.push_op(c, Kind::Cas, new_id, cur_addr, ret_id, ret_addr, inv, resp);
         if self.rng.chance(1, 2) {
             self.keep_guard(c, prev);
